@@ -55,6 +55,11 @@ class FuncV:
 
 
 @dataclass
+class ModuleV:
+    info: "ModuleInfo"              # a repository module used as a value (only attribute access is meaningful)
+
+
+@dataclass
 class LibV:
     name: str                       # dotted name of the library function / "Type.method"
     bound: z3.ExprRef | None = None
@@ -275,7 +280,7 @@ class Interp:
                 sub = self.engine.repo.module(modname + "." + orig)
                 if sub is None:
                     raise Unsupported(f"cannot resolve {modname}.{orig}")
-                raise Unsupported(f"module objects are not modelled: {modname}.{orig}")
+                val = self.st.reg_fun(ModuleV(sub))          # `from package import module`: a module object
             else:
                 val = self.lib.resolve(self, f"{modname}.{orig}")
         elif kind == "module":
@@ -559,9 +564,43 @@ class Interp:
         if self.kind(obj) == "type" or isinstance(self.st.fun_of(obj), LibV):
             return obj
         if isinstance(node.slice, ast.Slice):
-            raise Unsupported("slice")
+            return self.slice_of(obj, node.slice, env, node)
         idx = self.eval(node.slice, env)
         return self.lib.getitem(self, obj, idx, node)
+
+    def slice_of(self, obj, sl: ast.Slice, env: Env, node):
+        """seq[a:b] (no step) of a tuple / list: a new sequence of the same kind holding the clamped window
+        (negative bounds count from the end, out-of-range bounds are clamped - never an error)."""
+        if sl.step is not None:
+            raise Unsupported("slice with a step")
+        sv = self.lib.seq_view(self, obj)
+        k = self.kind(obj)
+        cname = "tuple" if k == "tuple" else (self.ct.name(self.st.class_id_of(obj)) if k == "ref" and self.st.class_id_of(obj) is not None else None)
+        if sv is None or cname not in ("tuple", "list"):
+            raise Unsupported("slice of a value that is not a tuple or list")
+        arr, lo, hi = sv
+        n = hi - lo
+
+        def bound(e, default):
+            if e is None:
+                return default
+            v = self.eval(e, env)
+            if self.kind(v) == "none":
+                return default
+            if self.kind(v) != "int":
+                raise Unsupported("slice bound that is not an int")
+            b = V.ival(v)
+            return z3.If(b < 0, z3.If(n + b < 0, 0, n + b), z3.If(b > n, n, b))
+        a, b = bound(sl.lower, z3.IntVal(0)), bound(sl.upper, n)
+        a, b = self.st.simp(a), self.st.simp(b)
+        length = self.st.simp(z3.If(b > a, b - a, 0))
+        conc = self.lib.concrete_items(self, obj)
+        if conc is not None and z3.is_int_value(a) and z3.is_int_value(b):
+            items = conc[a.as_long():b.as_long()]
+            return V.tup(*items) if cname == "tuple" else self.lib.new_seq(self, "list", items)
+        i = z3.Int("i!sl")
+        out = z3.Lambda([i], z3.Select(arr, lo + a + i))
+        return self.lib.new_seq_from(self, cname, out, z3.IntVal(0), length)
 
     def e_Yield(self, node: ast.Yield, env: Env):
         """`yield v` inside an (async) generator body: the contract decides how the consumer resumes it."""
@@ -665,6 +704,10 @@ class Interp:
             return self.lib.lib_attr(self, obj, name, node)
         if k == "function":
             fv = st.fun_of(obj)
+            if isinstance(fv, ModuleV):          # attribute of a repository module object: the module-level symbol
+                if name in fv.info.symbols:
+                    return self.module_symbol(fv.info, name)
+                raise Unsupported(f"module {fv.info.name} has no symbol {name}")
             if isinstance(fv, OracleV):
                 if name in fv.attrs:
                     return fv.attrs[name]
